@@ -1,6 +1,6 @@
 // ===================== TRUSTED: regex capture API + chrono constructors used by parse_from_iso8601 =====================
-/// `static ref ISO_8601_REGEX` (chronoutil.rs). TRUSTED: on Latin-1 input a match yields groups of the shape groups_shape (the pattern's
-/// \d{4}, two-digit fields, [.,]digits+, and Z | [-+]hh:?mm); which strings match is the uninterpreted iso_groups.
+/// `static ref ISO_8601_REGEX` (chronoutil.rs). TRUSTED: on Latin-1 input (where \d is [0-9]) the anchored pattern matches exactly the strings
+/// the transcription `iso_groups` (spec/time.rs) accepts, with those capture groups.
 pub struct RegexIso;
 pub const ISO_8601_REGEX: RegexIso = RegexIso;
 pub struct IsoCaptures { pub ghost g: IsoGroups }
@@ -16,7 +16,7 @@ impl RegexIso {
         requires latin1_only(s@)
         ensures
             iso_groups(s.spec_bytes()) is None ==> r is None,
-            iso_groups(s.spec_bytes()) is Some ==> r is Some && r->Some_0.g == iso_groups(s.spec_bytes())->Some_0 && groups_shape(r->Some_0.g),
+            iso_groups(s.spec_bytes()) is Some ==> r is Some && r->Some_0.g == iso_groups(s.spec_bytes())->Some_0,
     { unimplemented!() }
 }
 impl IsoCaptures {
